@@ -109,8 +109,13 @@ func bytesToInts(b []byte) []int {
 	return r
 }
 
+// inflight holds the trees of the statement that is being run, for the
+// report of a statement that does not finish.
+var inflight []string
+
 // runStatement mirrors cmd/calc/calc_test.go and node.processInput.
 func (mc *machine) runStatement(src string, c sessionCase) (res stmtResult) {
+	inflight = nil
 	res.Out = []int{}
 	defer func() {
 		if e := recover(); e != nil {
@@ -126,6 +131,7 @@ func (mc *machine) runStatement(src string, c sessionCase) (res stmtResult) {
 	var out []byte
 	for _, stmnt := range ast {
 		res.Asts = append(res.Asts, coqNode(stmnt))
+		inflight = append([]string{}, res.Asts...)
 		stmnt = stmnt.STRewrite(node.SymTbl{})
 		res.Resolved = append(res.Resolved, coqNode(stmnt))
 		cs0, ds0 := len(*mc.cr.CS), len(*mc.cr.DS)
@@ -207,7 +213,7 @@ func cmdSession(in *bufio.Reader) {
 		case <-done:
 			emit(map[string]any{"results": results})
 		case <-time.After(time.Duration(c.Timeout) * time.Millisecond):
-			emit(map[string]any{"hang": true, "completed": len(results)})
+			emit(map[string]any{"hang": true, "completed": len(results), "results": results, "inflight": inflight})
 			out.Flush()
 			os.Exit(3) // a runaway goroutine cannot be stopped; the driver restarts after this case
 		}
